@@ -61,7 +61,7 @@ func init() {
 		ID:    "C20",
 		Level: "fault_enumeration",
 		Rule: "every operation history inside the bound (History.Add over an 8-form menu incl. multi-line, TAB, blanks, non-ASCII, " +
-			"blank; Clear ranges; SetLimit; Stash.Add/Clear; setq of watched settings) on the real pkg/repl code over an in-memory " +
+			"blank; Clear ranges through the Go methods and through the Lisp functions clear-history / clear-stash on the session globals; SetLimit; Stash.Add/Clear; setq of watched settings) on the real pkg/repl code over an in-memory " +
 			"file system, in two modes (one instance / restart after every operation); plus, for every history, a process death " +
 			"before every state-changing file-system step (create, truncate, each write, rename) of the last operation, then " +
 			"restart, two further Adds and restarts. A case is non-trivial when it crosses the compaction path, contains a clear, " +
@@ -74,12 +74,12 @@ func init() {
 		},
 		Enumerate: enumerate,
 		Exec:      exec,
-		Required:  []string{"compaction", "crash-reached", "crash-in-compaction", "clear", "restart", "tmp-left-behind", "stash", "settings"},
+		Required:  []string{"compaction", "crash-reached", "crash-in-compaction", "clear", "lisp-level-clear", "restart", "tmp-left-behind", "stash", "settings"},
 		Bound: func(tier string) string {
 			if tier == engine.Thorough {
-				return "L=3: all histories of length <=5 over 15 ops x 2 modes, every crash point of the last op for every one of them; L=10: 8..13 adds then all op sequences of length <=3, x 2 modes + every crash point; L=20: 19..25 adds then all op sequences of length <=2 likewise; stash histories <=5 (crash points for <=2); settings histories <=5 incl. restarts (several sessions), crash points for <=3"
+				return "L=3: all histories of length <=5 over 20 ops x 2 modes, every crash point of the last op for every one of them; L=10: 8..13 adds then all op sequences of length <=3, x 2 modes + every crash point; L=20: 19..25 adds then all op sequences of length <=2 likewise; stash histories <=5 (crash points for <=2); settings histories <=5 incl. restarts (several sessions), crash points for <=3"
 			}
-			return "L=3: all histories of length <=4 over 15 ops x 2 modes, every crash point of the last op for every one of them; L=10: 9..11 adds then all op sequences of length <=2, x 2 modes + every crash point; L=20: 21..23 adds then all op sequences of length <=2 likewise; stash histories <=4 (crash points for <=2); settings histories <=4 incl. restarts (several sessions), crash points for <=3"
+			return "L=3: all histories of length <=4 over 20 ops x 2 modes, every crash point of the last op for every one of them; L=10: 9..11 adds then all op sequences of length <=2, x 2 modes + every crash point; L=20: 21..23 adds then all op sequences of length <=2 likewise; stash histories <=4 (crash points for <=2); settings histories <=4 incl. restarts (several sessions), crash points for <=3"
 		},
 	})
 }
@@ -90,6 +90,8 @@ func histOps() []string {
 		ops = append(ops, "A"+strconv.Itoa(i))
 	}
 	ops = append(ops, "C0,-1", "C0,0", "C1,1", "C0,1", "C1,2", "L2", "L5")
+	// K: the same clears through the user-facing Lisp function (clear-history :start s :end e) on repl.TheHistory
+	ops = append(ops, "K0,-1", "K0,0", "K1,1", "K0,1", "K1,2")
 	return ops
 }
 
@@ -163,7 +165,7 @@ func enumerate(tier string, emit func(string)) {
 		})
 	}
 	// --- stash
-	sops := []string{"S0", "S1", "S2", "S3", "S4", "S5", "S7", "X0,-1", "X0,0", "X1,1"}
+	sops := []string{"S0", "S1", "S2", "S3", "S4", "S5", "S7", "X0,-1", "X0,0", "X1,1", "Y0,-1", "Y0,0", "Y1,1"}
 	sn := 4
 	if thorough {
 		sn = 5
@@ -415,6 +417,11 @@ func guard(f func()) (crash bool, other any) {
 				crash = true
 				return
 			}
+			if _, wrapped := rec.(*slip.Panic); wrapped && vfs.Dead() {
+				// the death sentinel crossed the Lisp evaluator (clear-history / clear-stash), which wraps every foreign panic
+				crash = true
+				return
+			}
 			other = rec
 		}
 	}()
@@ -456,7 +463,7 @@ func execHist(sp *spec, res *engine.Result) {
 		case 'A':
 			i, _ := strconv.Atoi(op[1:])
 			ref.add(forms[i])
-		case 'C':
+		case 'C', 'K':
 			s, e := parse2(op[1:])
 			a, b := clearBoth(ref.forms, s, e)
 			ref.forms = a
@@ -479,6 +486,9 @@ func execHist(sp *spec, res *engine.Result) {
 		case 'C':
 			s, e := parse2(op[1:])
 			h.Clear(s, e)
+		case 'K':
+			s, e := parse2(op[1:])
+			lispClear("clear-history", s, e, func() { repl.TheHistory = *h }, func() { *h = repl.TheHistory })
 		case 'L':
 			l, _ := strconv.Atoi(op[1:])
 			h.SetLimit(l)
@@ -516,7 +526,10 @@ func execHist(sp *spec, res *engine.Result) {
 	last := len(sp.Ops) - 1
 	for i, op := range sp.Ops {
 		opKind := string(op[0])
-		if op[0] == 'C' {
+		if op[0] == 'K' {
+			res.Hit("lisp-level-clear")
+		}
+		if op[0] == 'C' || op[0] == 'K' {
 			res.Hit("clear")
 			res.Nontrivial = true
 			s, _ := parse2(op[1:])
@@ -658,6 +671,21 @@ func execHistCrash(sp *spec, res *engine.Result, h *repl.History, ref *refHist, 
 
 // ---------------------------------------------------------------- stash
 
+// lispClear runs the user-facing function (clear-history / clear-stash) on the session's global object: the
+// instance under test is copied into the global, the Lisp form is evaluated, the global is copied back.
+func lispClear(fn string, start, end int, install, takeBack func()) {
+	install()
+	defer takeBack()
+	src := fmt.Sprintf("(repl::%s :start %d", fn, start)
+	if 0 <= end {
+		src += fmt.Sprintf(" :end %d", end)
+	}
+	src += ")"
+	// no recover here: the death sentinel of the file-system shim must reach the caller like any other panic
+	scope := slip.NewScope()
+	_ = slip.ReadString(src, scope).Eval(scope, nil)
+}
+
 func loadStash() *repl.Stash {
 	s := &repl.Stash{}
 	s.LoadExpanded(stashFile)
@@ -676,6 +704,9 @@ func execStash(sp *spec, res *engine.Result) {
 		case 'X':
 			a, b := parse2(op[1:])
 			s.Clear(a, b)
+		case 'Y':
+			a, b := parse2(op[1:])
+			lispClear("clear-stash", a, b, func() { repl.TheStash = *s }, func() { *s = repl.TheStash })
 		}
 	}
 	for i, op := range sp.Ops {
